@@ -522,6 +522,8 @@ impl Controller for Bbr {
         self.min_cwnd = calculate_min_window(self.current_mtu);
         self.init_cwnd = self.config.initial_window.max(self.min_cwnd);
         self.cwnd = self.cwnd.max(self.min_cwnd);
+        // `window()` is `min(cwnd, recovery_window)` while in recovery: keep the floor there too
+        self.recovery_window = self.recovery_window.max(self.min_cwnd);
     }
 
     fn window(&self) -> u64 {
